@@ -31,7 +31,7 @@ CHECKS = [
           "returns the curve when the prepared curve lies in the span, for s = 1 and s = sqrt(weight); the uncentred-rescale defect (F2) is "
           "refuted by a computed witness. Tie: transform(None/X_train, NumInt/InnPro), inverse_transform vs the exact Q model fed with the "
           "implementation's mean, weight, eigenfunctions, on 1-D and 2-D data; open finding F2 recognised by exact agreement with the defect model.",
-  "note": STD_NOTE + " PACE scores: well-formedness only. Projection property outside the span is not proved (C03_roundtrip_is_projection_partial)."},
+  "note": STD_NOTE + " PACE scores: well-formedness only. The round trip is proved to be a projection (C03_roundtrip_is_projection)."},
  {"id": "C04",
   "text": "Theorems: eigenvectors of the NON-symmetric product G Q (G block-diagonal Gram of the univariate bases, Q score covariance, both "
           "acting symmetrically) for distinct eigenvalues are Q-orthogonal; hence the multivariate eigenfunctions a_k = (nf_k/sqrt(nu_k)) Q c_k "
@@ -93,7 +93,8 @@ CHECKS = [
           "exact amount 2c(sum d)avg(d.w)+c^2(sum d)^2, with |sum d|<=2e-4, |sum d^2-1|<=1e-3 proved for the ten difference sequences REFLECTED "
           "from the source on every run. Tie: .mean(), .covariance(), .noise_variance(order 1..10), _estimate_noise_variance vs the exact Q "
           "model; monitors for permutation invariance of the covariance, LP/PS-smoothed covariances (symmetry, support), per-curve averaging.",
-  "note": STD_NOTE + " Covariance permutation-invariance is monitored, not proved (C09_cov_perm_partial)."},
+  "note": STD_NOTE + " The covariance entries are also characterised as sums over the centred observations and proved invariant "
+          "under permutation of the observations (C09_cov_entry_rows, C09_cov_perm)."},
  {"id": "C10",
   "text": "Theorems: centering makes the pointwise mean zero and is idempotent (entry formula x_ij - mean_j); dividing by the norm r (oracle root, "
           "r^2 = squared norm) gives unit norm; standardising has the entry formula (x_ij - mean_j)/sd_j guarded to 0 where sd_j = 0 (every cell "
@@ -110,7 +111,7 @@ CHECKS = [
           "order at their abscissae, and the table is dense iff no cell is missing. Tie: BasisFunctionalData (4 families, 1-D and 2-D) "
           "to_grid / inner_product vs the exact Q model, every statistic on the expansion vs on the evaluated curves (two quadrature rules in "
           "sequence on the same object), to_basis vs PS smoothing, exact recovery in the spline space, long tables, read_csv on generated files.",
-  "note": STD_NOTE + " Partial: covariance commutation up to n/(n-1) is checked by correspondence only (C14_cov_commutes_partial)."},
+  "note": STD_NOTE + " Covariance commutation (n-1)*cov_grid(s,t) = n*phi(s)^T cov_coef phi(t) is proved (C14_cov_commutes_up_to_n) and tied."},
  {"id": "C18",
   "text": "Theorems: Cox-de Boor B-splines of ANY degree on ANY strictly increasing knot sequence are non-negative, vanish outside "
           "[t_j, t_{j+p+1}), have at most p+1 non-zero members at a point and sum to one on [t_{lo+p}, t_{lo+n}] INCLUDING the right end point "
@@ -120,8 +121,11 @@ CHECKS = [
           "Tie: _basis_bsplines for degree 1..5 x n_functions vs the exact Q model (this is what establishes truncated-power = Cox-de Boor), "
           "_basis_legendre vs Bonnet, Basis(...) intercept / normalisation / all 16 2-D family combinations vs the model tensor; monitors for "
           "Fourier / Wiener / Legendre orthogonality by quadrature and closed forms.",
-  "note": STD_NOTE + " Partial: orthonormality of Fourier/Wiener and orthogonality of Legendre are monitored by quadrature, not proved; "
-          "truncated-power = Cox-de Boor is established by correspondence only."},
+  "note": STD_NOTE + " Also proved: Wiener functions orthonormal on [0,1] and Fourier functions (constant, cosines, sines) orthonormal on "
+          "[a,b] as Riemann integrals (Coquelicot is_RInt, explicit antiderivatives; adds Classical_Prop.classic and sig_not_dec to the "
+          "axioms); Legendre polynomials orthogonal on [-1,1] with norms 2/(2k+1) for all degrees <= 15 by exact polynomial integration "
+          "(finite check lifted by forallb_forall and the Q/R transfer; not the unbounded claim). Truncated-power = Cox-de Boor is "
+          "established by correspondence only."},
 ]
 
 import glob, json, os
